@@ -31,15 +31,24 @@ RULE = ("workload = 300 calls (parse / intersect / union / difference / allows /
         "schedule, compared with the reference text; non-trivial when the reference result is not an error; distinct = "
         "distinct (call, schedule kind). Trace streams: every bookkeeping event replayed through the Lean machines.")
 ASSUMPTIONS = [
-    "(H1) NOT proved: the functions behind the caches (parse_marker, cnf, dnf, _merge_single_markers, parse_constraint, "
-    "generic parse_constraint / parse_extra_constraint, PEP440Parser.parse, parse_requirement) are functions of their "
-    "arguments — in particular what cnf/dnf/_merge_single_markers return does not depend on the detect_recursion stack of "
-    "the calling thread when the value is first cached (StackPure). Sampled: value-consistency verdicts of the memo "
-    "trace (`c`/`d`) and the permuted-order runs.",
-    "(H2) NOT proved here: == / hash of cache keys is a congruence for the cached function (MemoSpec.Congr); for markers "
-    "and constraints this is property C18. Sampled: key tokens are dict-equivalence classes, value tokens are result texts.",
+    "(H1) stack purity — PROVED for the marker model where it holds, and proved false in general "
+    "(stackPure_false_in_general): cnf/dnf/intersection/union of Model/MarkerAlg.lean return the same value with and "
+    "without the caller's detect_recursion frames whenever no membership test is answered by one of the caller's frames "
+    "(cnf_stack_irrelevant etc., taint-tracking run of Model/ConcTaint.lean, induction over the whole mutual block); "
+    "memo_transparent_cnf_untainted / _dnf_untainted need no purity hypothesis beyond that. REMAINS: (a) the marker model "
+    "is the code (C07's differential correspondence, sampling); (b) calls during which a caller's frame IS hit are outside "
+    "the theorem — sampled here: every traced run counts such hits (`h1:foreign-frame-hit:*` in the distribution, 0 on "
+    "this tree) and the permuted-order runs compare results; (c) _merge_single_markers takes no stack (pure in the model); "
+    "parse_marker's top-level union(...) is covered by union_stack_irrelevant but not restated for the context machine.",
+    "(H2) congruence of cache keys — PROVED for cnf, dnf, _merge_single_markers (keys compared by M.beq / Leaf.beq, C18: "
+    "equal coherent markers are the same object) and for every cache keyed by a str (parse_marker, parse_constraint, "
+    "generic parse_constraint / parse_extra_constraint, PEP440Parser.parse, parse_requirement: str equality is identity of "
+    "values). REMAINS: every marker object that reaches a cache satisfies the constructor invariant mCoherent (C18's "
+    "marker_coherent_full_statement, checked per object by C18's correspondence). A cache keyed by Version equality would "
+    "NOT be a congruence (firstDev_cache_not_congruent, firstDev_cache_history_dependent).",
     "(H3) trusted: CPython GIL atomicity of a single dict read/write and list append/pop/contains on a per-thread list; "
-    "functools.cache = lookup, miss -> call -> store, exceptions not stored (C implementation not modelled).",
+    "functools.cache = lookup, miss -> call -> store, exceptions not stored (C implementation not modelled; the trace "
+    "correspondence observes it from outside).",
     "(H4) trusted: Lark.open on a fixed grammar file is deterministic and a built Lark object may be used by several "
     "threads at once (lark's own thread safety).",
     "PYTHONHASHSEED is fixed per workload (same value for the reference and every schedule): dependence of results on "
@@ -390,6 +399,11 @@ def check_trace(ctx: core.Ctx, wl: dict[str, Any], res: dict[str, Any], threaded
             memos.setdefault(e[1], []).append(e)
         elif e[0] == "L":
             lazies.setdefault(e[1], []).append(e)
+        elif e[0] == "H":
+            # a detect_recursion test answered by a frame older than a cached computation still running: the value
+            # that computation caches may depend on the caller's stack (outside `memo_transparent_cnf_untainted`)
+            ctx.count(f"h1:foreign-frame-hit:{e[1]}:{e[2]}")
+            wl.setdefault("foreign_hits", []).append(e)
     lines: list[str] = []
     expect: list[tuple[str, str, list[Any], list[str]]] = []   # (kind, name, events, expected verdict sets)
     for name, es in sorted(guards.items()):
@@ -612,5 +626,9 @@ def replay(ctx: core.Ctx, payload: dict[str, Any]) -> bool:
 
 
 def extra_evidence(ctx: core.Ctx) -> dict[str, Any]:
+    hits = sum(v for k, v in ctx.dist.items() if k.startswith("h1:foreign-frame-hit"))
     return {"replay_note": f"thread-schedule witnesses are re-run up to {REPLAY_TRIES} times on replay",
-            "switch_interval": 1e-6}
+            "switch_interval": 1e-6,
+            "h1_foreign_frame_hits_in_traces": hits,
+            "h1_note": "0 = every cached cnf/dnf/_merge/parse computation of the traced runs was taint-free in the sense of "
+                       "Model/ConcTaint.lean, i.e. inside the domain where memo_transparent_*_untainted applies"}
